@@ -113,6 +113,7 @@ pub fn make_scenario(r: &mut Sm, cfg: &CaseCfg) -> Scenario {
 
 /// Execute a scenario. Returns the driver (log, snapshot access) and the result of `solve`.
 pub fn exec<K: Kit>(kit: &K, sc: &Scenario) -> Result<(Drv<K>, Res), String> {
+    crate::watch::set_case(sc.to_json());
     match &sc.script {
         None => {
             let (d, r) = run_once_budget(kit, sc)?;
